@@ -185,6 +185,20 @@ def part_e2e(ctx, part):
                 wrong = ar + 1 if r.random() < 0.5 or ar == 0 else ar - 1
                 lines.append("%s.new(%s)" % (cn, ", ".join(["1"] * wrong)))
                 calls.append((len(lines), "%s.new/%d" % (cn, wrong), "reported"))
+        # protected methods: callable on another instance from the class itself and from every descendant, not from outside
+        for c in w.classes:
+            chain = suggen.superchain(w, c["name"])
+            prots = [n for k in chain for n, v in suggen.cls(w, k)["inst"] if v == "protected"]
+            if not prots:
+                continue
+            pm = r.choice(prots)
+            lines += ["class %s" % c["name"], "  def pcall_%s(other)" % c["name"].lower(), "    other.%s" % pm, "  end", "end"]
+            calls.append((len(lines) - 2, "%s#pcall -> other.%s (inside the hierarchy)" % (c["name"], pm), "ok"))
+            ar = init_arity(w, c["name"])
+            lines.append("o_%s.pcall_%s(%s.new(%s))" % (c["name"].lower(), c["name"].lower(), c["name"], ", ".join(["1"] * ar)))
+            lines += ["class Outsider%s" % c["name"], "  def pcall(other)", "    other.%s" % pm, "  end", "end"]
+            calls.append((len(lines) - 2, "Outsider#pcall -> other.%s (outside the hierarchy)" % pm, "reported"))
+            lines.append("Outsider%s.new.pcall(%s.new(%s))" % (c["name"], c["name"], ", ".join(["1"] * ar)))
         src = "\n".join(lines) + "\n"
         with C.Workdir() as wd:
             return w, src, calls, wd.ti([wd.write(src, "t.rb")])
